@@ -1,7 +1,7 @@
 (* C09 - JSON serialization is lossless or loud, and policy-gated.
    Statements only; proofs in theories/Serial_proofs.v and theories/Copy_proofs.v. *)
 From Fiddle Require Import PyBase PySlice Sig ArgStore PyCall PyText Heap Traverse Build_stmt
-  Traverse_proofs Copy Iso_proofs Copy_proofs Serial Serial_proofs.
+  Traverse_proofs Copy Iso_proofs Copy_proofs Serial Serial_proofs Doc Doc_proofs.
 Open Scope N_scope.
 
 (* Bytes: every byte string survives the traverser's flatten / unflatten. *)
@@ -53,3 +53,121 @@ Theorem C09_roundtrip_graph : forall e h r s res,
     rel_ref (memo_bij (memo s)) r r'.
 Proof. intros e h r s res. exact (deepcopy_faithful e true h r s res). Qed.
 Print Assumptions C09_roundtrip_graph.
+
+(* The document itself (Doc.v): the object table written by dump_json.  ser e h r is the table of
+   the value (h, r); loading a table is the same memoized walk (deser = ser).  all_writable: every
+   object the walk reaches is a container, a set or a Buildable (anything else is passed through by
+   the copy and has no entry). *)
+
+(* a written document, loaded and written again, is literally the same document *)
+Theorem C09_doc_fixpoint : forall e h r d rd,
+  wf_b e h = true -> root_ok h r -> all_writable e h r = true ->
+  ser e h r = Some (d, rd) -> ser e d rd = Some (d, rd).
+Proof. exact ser_fixpoint. Qed.
+Print Assumptions C09_doc_fixpoint.
+
+Theorem C09_doc_roundtrip_is_doc : forall e h r,
+  wf_b e h = true -> root_ok h r -> all_writable e h r = true -> roundtrip e h r = ser e h r.
+Proof. exact roundtrip_is_doc. Qed.
+Print Assumptions C09_doc_roundtrip_is_doc.
+
+Theorem C09_doc_redump_same : forall e h r,
+  wf_b e h = true -> root_ok h r -> all_writable e h r = true -> redump e h r = ser e h r.
+Proof. exact redump_same. Qed.
+Print Assumptions C09_doc_redump_same.
+
+(* the hypothesis all_writable cannot be dropped *)
+Theorem C09_doc_fixpoint_needs_writable :
+  exists e h r d rd,
+    wf_b e h = true /\ root_ok h r /\ all_writable e h r = false /\
+    ser e h r = Some (d, rd) /\ ser e d rd = None /\ wf_b e d = false.
+Proof. exact ser_fixpoint_needs_writable. Qed.
+Print Assumptions C09_doc_fixpoint_needs_writable.
+
+Theorem C09_doc_total : forall e h r,
+  wf_b e h = true -> root_ok h r -> exists d rd, ser e h r = Some (d, rd).
+Proof. exact ser_total. Qed.
+Print Assumptions C09_doc_total.
+
+Theorem C09_doc_wf : forall e h r d rd,
+  wf_b e h = true -> root_ok h r -> all_writable e h r = true -> ser e h r = Some (d, rd) ->
+  wf_b e d = true /\ root_ok d rd /\ all_writable e d rd = true.
+Proof. exact ser_wf. Qed.
+Print Assumptions C09_doc_wf.
+
+(* exactly one entry per reachable writable object ... *)
+Theorem C09_doc_entries : forall e h r d rd,
+  wf_b e h = true -> root_ok h r -> ser e h r = Some (d, rd) ->
+  length d = length (filter (node_writable h) (doc_order e h r)).
+Proof. exact ser_entries. Qed.
+Print Assumptions C09_doc_entries.
+
+(* ... and no garbage; the walk over the document finishes the entries in table order *)
+Theorem C09_doc_compact : forall e h r d rd,
+  wf_b e h = true -> root_ok h r -> all_writable e h r = true -> ser e h r = Some (d, rd) ->
+  length d = length (doc_order e h r) /\
+  length d = length (filter (node_writable h) (doc_order e h r)) /\
+  (forall k, (k < length d)%nat -> creach e d rd k).
+Proof. exact ser_compact. Qed.
+Print Assumptions C09_doc_compact.
+
+Theorem C09_doc_order_of_doc : forall e h r d rd,
+  wf_b e h = true -> root_ok h r -> all_writable e h r = true -> ser e h r = Some (d, rd) ->
+  doc_order e d rd = seq 0 (length d).
+Proof. exact doc_order_of_doc. Qed.
+Print Assumptions C09_doc_order_of_doc.
+
+Theorem C09_doc_index_range : forall e h r d rd i k,
+  wf_b e h = true -> root_ok h r -> ser e h r = Some (d, rd) ->
+  doc_index e h r i = Some k -> (k < length d)%nat /\ In i (doc_order e h r).
+Proof. exact doc_index_range. Qed.
+Print Assumptions C09_doc_index_range.
+
+Theorem C09_doc_index_injective : forall e h r i j k,
+  wf_b e h = true -> root_ok h r ->
+  doc_index e h r i = Some k -> doc_index e h r j = Some k -> i = j.
+Proof. exact doc_index_injective. Qed.
+Print Assumptions C09_doc_index_injective.
+
+Theorem C09_doc_index_children_first : forall e h r i j ki kj,
+  wf_b e h = true -> root_ok h r -> child_of e h i j ->
+  doc_index e h r i = Some ki -> doc_index e h r j = Some kj -> (kj < ki)%nat.
+Proof. exact doc_index_children_first. Qed.
+Print Assumptions C09_doc_index_children_first.
+
+Theorem C09_doc_index_position : forall e h r t i,
+  wf_b e h = true -> root_ok h r -> all_writable e h r = true ->
+  nth_error (doc_order e h r) t = Some i -> doc_index e h r i = Some t.
+Proof. exact doc_index_position. Qed.
+Print Assumptions C09_doc_index_position.
+
+Theorem C09_doc_order_spec : forall e h r,
+  wf_b e h = true -> root_ok h r ->
+  NoDup (doc_order e h r) /\ (forall i, In i (doc_order e h r) <-> creach e h r i).
+Proof. exact doc_order_spec. Qed.
+Print Assumptions C09_doc_order_spec.
+
+(* the table is isomorphic to the input, under the correspondence object i <-> entry doc_index i *)
+Theorem C09_doc_iso : forall e h r d rd,
+  wf_b e h = true -> root_ok h r -> all_writable e h r = true ->
+  (forall i n, creach e h r i -> nth_error h i = Some n -> node_canonical e n) ->
+  ser e h r = Some (d, rd) ->
+  exists m, bij_wf m /\ simulates h d m /\ rel_ref m r rd /\
+            (forall i k, In (i, k) m <-> doc_index e h r i = Some k).
+Proof. exact ser_iso. Qed.
+Print Assumptions C09_doc_iso.
+
+(* refcounts: the item slots of the table that hold the entry, plus one for the root *)
+Theorem C09_doc_refcount : forall e h r d rd i k,
+  wf_b e h = true -> root_ok h r -> all_writable e h r = true ->
+  ser e h r = Some (d, rd) -> doc_index e h r i = Some k ->
+  doc_refcount e h r i = (slot_count e d k + (if ref_eq_dec rd (RP k) then 1 else 0))%nat.
+Proof. exact doc_refcount_spec. Qed.
+Print Assumptions C09_doc_refcount.
+
+(* __flatten__ after __unflatten__: the argument order of ordered_arguments is stable *)
+Theorem C09_doc_flatten_stable : forall e fn args rs,
+  length rs = length (flat_args e fn args) ->
+  flat_args e fn (combine (map fst (flat_args e fn args)) rs) = combine (map fst (flat_args e fn args)) rs.
+Proof. exact flat_args_fix. Qed.
+Print Assumptions C09_doc_flatten_stable.
